@@ -714,7 +714,9 @@ register("C10",
          "same package name declaring same-named functions, must be accepted and wired as designated; non-trivial = accepted base program",
          [_c10_part, planner_part("C10", _nt_accepted),
           e2e_part("C10", [("n", {"adversarial": True, "units": [2, 3]}), ("d", {"units": [2, 3]})], _pairs_c02, set(),
-                   lambda ur: (ur.impl or "").startswith("ok"), n_quick=100, n_thorough=1000, extra=_wellformed_extra)])
+                   lambda ur: (ur.impl or "").startswith("ok"), n_quick=100, n_thorough=1000, extra=_wellformed_extra),
+          # the same set reached directly, through re-exporting packages that do not import wire, and nested in a facade's set
+          lambda rep, tier: __import__("vlib.c10tier", fromlist=["x"]).run_facade(rep, tier)])
 
 
 def _c11_matrix(rep, tier):
